@@ -14,6 +14,12 @@ from ..records import Layouts
 LEVEL = "other"
 
 
+def open_shape(chk, repo):
+    """C18-E9: the declared shape is not derived from what was parsed (vlib/openmodel.py)"""
+    from .open_rules import open_rules
+    open_rules(chk, repo, "C18-E9", ('shape',), "open_image declares the pixel array with the header's shape, whatever number of line records was parsed (so that a short file contradicts it)")
+
+
 def run(chk, repo):
     op = OpenPath(repo)
     chk.explanation = (
@@ -35,6 +41,7 @@ def run(chk, repo):
     tie = chk.attempt(e3, chk, op)
     chk.attempt(trace_truncation, chk, op, tie)
     chk.attempt(e2, chk, op, covered_by="trace_truncation", rules=("C18-E2",))
+    chk.attempt(open_shape, chk, repo)
     chk.attempt(e4, chk, op)
     chk.rule("C18-E6", "every loop on the open path is bounded: for-loops over finite collections; a while-loop makes progress in every iteration or leaves on a short/empty read", 0)
     chk.attempt(e6, chk, op, covered_by="trace_truncation")
